@@ -9,7 +9,7 @@ PID = "C11"
 
 def obligations(tier):
     obs = []
-    ns = (2, 3) if tier == "quick" else (2, 3, 4)
+    ns = (2, 3, 4) if tier == "quick" else (2, 3, 4, 5)
     for interp in INTERPS:
         for n in ns:
             obs.append(dict(id=f"{interp} {n} nodes", interp=interp, n=n))
@@ -41,14 +41,31 @@ def worker(ob):
                     m.define(m.ufun("exp", m.ufun("ln", y)) == y)
                 m.define(m.ufun("exp", z3.RealVal(0)) == 1)
                 m.axioms.append("exp(ln y)=y for node values; exp(0)=1")
-            tmin = z3.And(*[ts[0] <= t for t in ts])
+            rz = rr.z()
+            logtype = interp in ("log_linear", "linear_zero_rate") and z3.is_app(rz) and rz.decl().name() == "exp"
             for k in range(n):
-                if interp == "linear_zero_rate":
+                gx = settled(m, x == ts[k])
+                if gx is False:
+                    continue
+                hyp = z3.BoolVal(True) if gx is True else (x == ts[k])
+                if logtype:
+                    # exp is injective: 'value = y_k' <=> 'exponent = ln y_k' (and 'value = 1' <=> 'exponent = 0'); the exponent is
+                    # compared after substituting the node date, which leaves a division-free polynomial identity
+                    argk = subst_F(as_frac(rz.arg(0)), x, ts[k])
+                    lnk = F(m.ufun("ln", ys[k]))
+                    if interp == "linear_zero_rate":
+                        first = z3.And(*[ts[k] <= t for t in ts])
+                        gf = settled(m, first)
+                        body = fr_eq(argk, F(0)) if gf is True else fr_eq(argk, lnk) if gf is False else z3.If(first, fr_eq(argk, F(0)), fr_eq(argk, lnk))
+                        props.append((f"at node {k} the value is that node's value (1 at the first node, whose value is presumed 1)", z3.Implies(hyp, body)))
+                    else:
+                        props.append((f"at node {k} the value is that node's value", z3.Implies(hyp, fr_eq(argk, lnk))))
+                elif interp == "linear_zero_rate":
                     first = z3.And(*[ts[k] <= t for t in ts])
                     props.append((f"at node {k} the value is that node's value (1 at the first node, whose value is presumed 1)",
-                                  z3.Implies(x == ts[k], z3.If(first, fr_eq(rr, F(1)), fr_eq(rr, Y[k])))))
+                                  z3.Implies(hyp, z3.If(first, fr_eq(rr, F(1)), fr_eq(rr, Y[k])))))
                 else:
-                    props.append((f"at node {k} the value is that node's value", z3.Implies(x == ts[k], fr_eq(rr, Y[k]))))
+                    props.append((f"at node {k} the value is that node's value", z3.Implies(hyp, fr_eq(rr, Y[k]))))
             props.append(("no division by zero", z3.And(*m.div_guards) if m.div_guards else True))
 
             def replay(model):
@@ -87,7 +104,7 @@ def worker(ob):
                 return out
         add_props(chk, props, replay)
         return chk
-    return explore_ob(harness, max_paths=20000, max_seconds=1500)
+    return explore_ob(harness, max_paths=20000, max_seconds=1400 if C.tier_seed()[0] == "quick" else 9000)
 
 
 K_Q = [f"c11_index_left_{n}" for n in (2, 3, 4, 5, 6)]
@@ -111,8 +128,8 @@ def run(tier, seed):
     standard_finish(PID, ev, obs + [dict(id=h) for h in harnesses], results + [{"ob": h, "paths": 1, "checks": res[h].get("checks", 0), "holds": res[h].get("checks", 0) if res[h]["status"] == "success" else 0} for h in harnesses], tot,
                     lambda f: {"site": f.get("ob", "").split(" ")[0]},
                     bounds={"interval_selection": f"index_left::<i64> on EVERY strictly increasing list of {harnesses[0][-1]}..{harnesses[-1][-1]} keys and every query (Kani, bit-precise, exact)",
-                            "formulas": "2..3 (quick) / 2..4 (thorough) nodes with symbolic distinct dates (every supply order via the real sort), symbolic positive values, symbolic query date before/at/between/after the nodes, all 5 rules",
-                            "outside": "more than 4 nodes for the formulas (index logic covered to 9); intra-day timestamps; log-linear 'between' clause (needs monotonic exp/ln) is proved for the linear rule only"},
+                            "formulas": "2..4 (quick) / 2..5 (thorough) nodes with symbolic distinct dates (every supply order via the real sort), symbolic positive values, symbolic query date before/at/between/after the nodes, all 5 rules",
+                            "outside": "more than 5 nodes for the formulas (index logic covered to 9); intra-day timestamps; log-linear 'between' clause (needs monotonic exp/ln) is proved for the linear rule only"},
                     rule="K: one obligation per list length; M: obligation = (rule, node count), paths = sort orders x index_left branches; one validity query per path with a declarative oracle (adjacent pair whose right end is the first node >= x)",
                     assumptions=["reals; ln/exp uninterpreted: the log-type rules are compared in log space (the exponent passed to exp is checked as an exact rational identity)", "dates at midnight"])
 
